@@ -29,6 +29,135 @@ func runC08(p *core.Prog, r *core.Report) {
 	c08R3(p, r)
 	c08R4(p, r)
 	c08R5(p, r)
+	c07R5(p, r, "C08.R7")
+	c08R8(p, r)
+}
+
+// c08R8: an index entry is marked because the index lists it, not because it could be loaded. Before
+// the mark phase tries to load an entry it has stored the entry's digest in the mark set (a blob-typed
+// entry, or a manifest the loader refuses, is still content the index refers to).
+func c08R8(p *core.Prog, r *core.Report) {
+	const rule = "C08.R8"
+	r.Rule(rule, "listed means kept: in the mark phase every load of an index entry is dominated by the store of that entry's digest into the mark set (the mark does not depend on the load succeeding)", 1)
+	walkers, first, _ := gcMarkWalkers(p)
+	if first == nil {
+		r.MissingAnchor(rule, "mark phase of the layout GC")
+		return
+	}
+	n := 0
+	for _, f := range sortedFuncs(walkers) {
+		// the entries: results of GetManifestList in this walker
+		var lists []ssa.Value
+		core.Calls(f, func(c ssa.CallInstruction) {
+			if isInvoke(c, "GetManifestList") {
+				if v, ok := c.(ssa.Value); ok {
+					lists = append(lists, v)
+				}
+			}
+		})
+		if len(lists) == 0 {
+			continue
+		}
+		fromList := func(v ssa.Value) bool {
+			for _, o := range core.Origins(v, core.SliceOpts{FieldsThrough: true, Through: func(c *ssa.Call) []int {
+				if cal := core.Callee(c); cal != nil && cal.Name() == "String" {
+					return []int{0}
+				}
+				if cal := core.Callee(c); cal != nil && (cal.Name() == "SetDigest" || cal.Name() == "AddDigest") && len(c.Call.Args) == 2 {
+					return []int{1}
+				}
+				return nil
+			}}) {
+				if o.Kind == core.OCall && o.Call != nil {
+					for _, l := range lists {
+						if ssa.Value(o.Call) == l {
+							return true
+						}
+					}
+				}
+			}
+			return false
+		}
+		var marks []ssa.Instruction
+		// a helper that stores its string parameter as key of a map (`g.add(digest)`)
+		storesParam := func(h *ssa.Function, idx int) bool {
+			if h == nil || len(h.Blocks) == 0 || len(h.Blocks) > 8 || idx >= len(h.Params) {
+				return false
+			}
+			found := false
+			for _, hb := range h.Blocks {
+				for _, hin := range hb.Instrs {
+					if mu, ok := hin.(*ssa.MapUpdate); ok {
+						for _, o := range core.Origins(mu.Key, core.SliceOpts{}) {
+							if o.Kind == core.OParam && o.Param == h.Params[idx] {
+								found = true
+							}
+						}
+					}
+				}
+			}
+			return found
+		}
+		for _, b := range f.Blocks {
+			for _, in := range b.Instrs {
+				switch x := in.(type) {
+				case *ssa.MapUpdate:
+					if m, isMap := x.Map.Type().Underlying().(*types.Map); isMap && isStringType(m.Key()) && fromList(x.Key) {
+						marks = append(marks, x)
+					}
+				case *ssa.Call:
+					if h := core.CalleeFn(x); h != nil && p.InModule(h) {
+						for i, a := range x.Call.Args {
+							if isStringType(a.Type()) && fromList(a) && storesParam(h, i) {
+								marks = append(marks, x)
+							}
+						}
+					}
+				}
+			}
+		}
+		lab := labeler{}
+		core.Calls(f, func(c ssa.CallInstruction) {
+			call, ok := c.(*ssa.Call)
+			g := core.CalleeFn(c)
+			if !ok || g == nil || !p.InModule(g) {
+				return
+			}
+			// not the recursion itself
+			walks := false
+			core.Calls(g, func(gc ssa.CallInstruction) {
+				walks = walks || isInvoke(gc, "GetManifestList") || isInvoke(gc, "GetLayers")
+			})
+			if walks {
+				return
+			}
+			res := g.Signature.Results()
+			if res.Len() == 0 || !isErrType(res.At(res.Len()-1).Type()) {
+				return
+			}
+			loads := false
+			for _, a := range call.Call.Args {
+				if core.IsModNamed(a.Type(), "types/ref", "Ref") && fromList(a) {
+					loads = true
+				}
+			}
+			if !loads {
+				return
+			}
+			n++
+			marked := false
+			for _, mu := range marks {
+				if core.DominatesInstr(mu, call) {
+					marked = true
+				}
+			}
+			r.Check(marked, rule, p.FuncName(f), lab.next("index entry loaded by "+canon(g)), p.Pos(call.Pos()),
+				"the entry's digest is not in the mark set before "+g.Name()+" is asked for it: an entry the index lists but the loader cannot read as a manifest (a blob-typed entry, a signed schema1 body, a manifest whose size differs) is swept although the image refers to it")
+		})
+	}
+	if n == 0 {
+		r.MissingAnchor(rule, "loads of index entries in the mark phase")
+	}
 }
 
 func isInvoke(c ssa.CallInstruction, method string) bool {
